@@ -71,6 +71,19 @@ Replace(t, id) == IF t.id = id THEN Marker ELSE [k |-> t.k, id |-> t.id, ch |-> 
 ReplaceSlots(ch, id) == [i \in 1..Len(ch) |-> <<ch[i][1], ReplaceSeq(ch[i][2], id)>>]
 ReplaceSeq(ts, id) == [i \in 1..Len(ts) |-> Replace(ts[i], id)]
 
+\* several replacements in one run; the visitor may answer a select-list item with a LIST of nodes, which is
+\* spliced in place.  repl is a sequence of <<id, <<marker numbers>>>>; marker n is the leaf with id -n.
+MarkerN(n) == [k |-> "Marker", id |-> 0 - n, ch |-> <<>>]
+ReplFor(repl, id) == LET hit == SelectSeq(repl, LAMBDA r : r[1] = id) IN IF hit = <<>> THEN <<>> ELSE hit[1][2]
+RECURSIVE ReplaceMany(_, _), ReplaceManySeq(_, _)
+ReplaceMany(t, repl) ==
+  [k |-> t.k, id |-> t.id, ch |-> [i \in 1..Len(t.ch) |-> <<t.ch[i][1], ReplaceManySeq(t.ch[i][2], repl)>>]]
+ReplaceManySeq(ts, repl) ==
+  IF ts = <<>> THEN <<>>
+  ELSE LET r == ReplFor(repl, Head(ts).id)
+       IN (IF r = <<>> THEN <<ReplaceMany(Head(ts), repl)>> ELSE [i \in 1..Len(r) |-> MarkerN(r[i])])
+          \o ReplaceManySeq(Tail(ts), repl)
+
 ----------------------------------------------------------------------------
 (* judging a recorded visit sequence  got = << [id, table, target], ... >>  against Expected(t) *)
 Ids(s) == {s[i].id : i \in 1..Len(s)}
